@@ -29,6 +29,9 @@ func (u *UseCase) Get(ctx context.Context, key string) (io.ReadCloser, error) {
 		filter.BeforeSeq = ptr.Ptr(tx.Seq)
 	}
 
+	model.ContentGuard.RLock()
+	defer model.ContentGuard.RUnlock()
+
 	f, err := u.fRepo.Get(ctx, tx.Id, key, filter)
 	if err != nil {
 		return nil, fmt.Errorf("file repository get: %w", err)
